@@ -184,6 +184,13 @@ func genValue(t *rapid.T, allowEmpty, allowComma bool) string {
 	for i := len(b) - 1; i >= 0 && (b[i] == ' ' || b[i] == '\t'); i-- {
 		b[i] = 'v'
 	}
+	// strings.TrimSpace (which ipchub applies to names and values) also strips
+	// Unicode spaces such as U+0085 / U+00A0 / U+3000; the random high bytes can
+	// form one at an end by chance. No ipchub sender emits a value that starts or
+	// ends with one, so such ends are replaced (see the report: observed, not claimed).
+	for len(b) > 0 && strings.TrimSpace(string(b)) != string(b) {
+		b[0], b[len(b)-1] = 'v', 'v'
+	}
 	return string(b)
 }
 
@@ -219,8 +226,8 @@ func genHeaders(t *rapid.T) ([]hdrLine, []string) {
 			vs = append(vs, genValue(t, nv == 1, nv == 1))
 		}
 		out = append(out, hdrLine{Key: k, Values: vs})
-		if nv > 1 {
-			cls = append(cls, "multival")
+		if nv > 1 && len(cls) == 0 {
+			cls = append(cls, "multi-valued-field")
 		}
 	}
 	return out, cls
@@ -310,7 +317,11 @@ func genRequest(t *rapid.T, large bool) genReq {
 	h, hc := genHeaders(t)
 	n, bc := genBodyLen(t, large)
 	body := fillBytes(n, genTile(t))
-	return genReq{It: item{Kind: kindReq, Method: m, URL: u, H: h, Body: body}, Ex: ex, Cls: append(hc, bc, "url:"+ex.Class)}
+	cls := append(hc, bc)
+	for _, c := range strings.Split(ex.Class, "+") {
+		cls = append(cls, "url:"+c)
+	}
+	return genReq{It: item{Kind: kindReq, Method: m, URL: u, H: h, Body: body}, Ex: ex, Cls: cls}
 }
 
 var reasonPool = []string{
